@@ -281,6 +281,16 @@ func ApplyPlant(rt *rapid.T, c *Case) *Plant {
 		}
 		insert(Elem{Kind: "struct", Struct: st})
 		pl.Types = []TypeID{st}
+		if rapid.Bool().Draw(rt, "plant-orphan-twice") {
+			// a second expansion without a source in the same declaration
+			s2 := c.newID()
+			f2 := c.newID() + 1
+			c.Types = append(c.Types, Type{ID: s2, Kind: KStruct, Name: c.freshName("O"), Fields: []Field{{Name: "FA", Type: f2}}})
+			c.Types = append(c.Types, Type{ID: f2, Kind: KNBasic, Name: c.freshName("N"), Basic: "int"})
+			insert(Elem{Kind: "struct", Struct: s2})
+			pl.Types = append(pl.Types, s2)
+			pl.Via += "-twice"
+		}
 		pl.Position = "deep"
 		if r2 := c.Resolve(inj); len(r2.Orphans) == 0 {
 			return nil
